@@ -2,7 +2,7 @@
    mutation, an abstract heap semantics for it, and an executable may-analysis
    [safe].  The programs are produced from /repo's source by
    translate/effects2v.py (coq/Gen/Effects.v); soundness is in
-   Proofs/EffectsP.v.
+   Proofs/EffectsP.v, EffectsSound.v, EffectsSound2.v.
 
    Part 1: syntax.  Part 2: the checker (executable).  Part 3: the abstract heap
    semantics (specification; an inductive relation, nothing is proved here). *)
@@ -487,6 +487,75 @@ Definition mutated_params (p : program) (fd : fundef) : option (list string) :=
   | Some v => Some (map (pname (fn_params fd)) (dedup (map snd v)))
   | None => None
   end.
+
+(* diagnostics of the MODEL (not of EoN): uses of a variable at a point where its
+   abstract value is empty.  The abstract value over-approximates, so such a variable is
+   unbound there in every execution: the semantics has no rule, every execution stops
+   there and the soundness theorem says nothing about what follows.  A hit means that
+   the translation (or the semantics) does not cover the code after that point -- e.g.
+   before loads could yield scalars, the body of every  for i in range(n)  was such dead
+   code.  Own body only (callees are reported on their own); (line or 0, variable). *)
+Definition emp_vars (E : aenv) (xs : list var) : list var := filter (fun x => aisempty (alook E x)) xs.
+Definition dead_expr (E : aenv) (e : expr) : list var :=
+  match e with
+  | EVar y => emp_vars E [y]
+  | ELoad y _ => emp_vars E [y]
+  | EReach ys => if forallb (fun y => aisempty (alook E y)) ys then ys else []
+  | EAlloc _ _ _ _ _ _ => []
+  | EChoice _ _ => []
+  end.
+Fixpoint dead (p : program) (H : aheap) (depth : nat) : stmt -> aenv -> option (aenv * viol) :=
+  match depth with
+  | O => fun _ _ => None
+  | S d =>
+    fix go (s : stmt) (E : aenv) {struct s} : option (aenv * viol) :=
+      match s with
+      | SSkip => Some (E, [])
+      | SAssign x e =>
+        match eval_expr H E e with
+        | Some v => Some (aset E x v, map (fun y => (0, y)) (dead_expr E e))
+        | None => None
+        end
+      | SWrite ln x f ys => Some (E, map (fun y => (ln, y)) (emp_vars E [x]))
+      | SSeq a b =>
+        match go a E with
+        | Some (E1, v1) =>
+          match go b E1 with Some (E2, v2) => Some (E2, v1 ++ v2) | None => None end
+        | None => None
+        end
+      | SIf a b =>
+        match go a E, go b E with
+        | Some (E1, v1), Some (E2, v2) => Some (aenv_join E1 E2, v1 ++ v2)
+        | _, _ => None
+        end
+      | SLoop b =>
+        match loop_inv (go b) LOOPFUEL E with
+        | Some (Ei, v) => if aenv_leq E Ei then Some (Ei, v) else None
+        | None => None
+        end
+      | SCall x f args =>
+        match find_fun p f with
+        | Some fd =>
+          match bind_params (fn_params fd) (map (alook E) args) with
+          | Some E0 =>
+            match dead p H d (fn_body fd) E0 with
+            | Some (E1, _) => Some (aset E x (alook E1 ret_var), map (fun y => (0, y)) (emp_vars E args))
+            | None => None
+            end
+          | None => None
+          end
+        | None => None
+        end
+      end
+  end.
+Definition dead_uses (p : program) (fd : fundef) : option viol :=
+  let E0 := entry_env fd in
+  let H := infer_fix p DEPTH (fn_body fd) E0 HEAPFUEL (mkheap [] [] []) in
+  match dead p H DEPTH (fn_body fd) E0 with
+  | Some (_, v) => Some v
+  | None => None
+  end.
+Definition dead_report (p : program) (fds : list fundef) := map (fun fd => (fn_name fd, dead_uses p fd)) fds.
 
 Definition entry_points (p : program) : list fundef := filter fn_entry p.
 Definition unsafe_entry_points (p : program) : list (string * option (list string)) :=
